@@ -185,5 +185,130 @@ def op_c20_sweep(job, drv):
     return res
 
 
+# ----------------------------------------------------------------------------
+# live leg: the real ThreadingTCPServer, real sockets, clients that go away
+# ----------------------------------------------------------------------------
+def op_c20_live(job, drv):
+    """Starts pygopherd's own ThreadingTCPServer (ephemeral port, demo certificate,
+    send/receive timeout from the configuration) in this process and lets real
+    clients fail in the middle of a response: reset (SO_LINGER 0), plain close,
+    or stop reading until the server's send timeout expires.  After every client:
+    the EXCEPTION records of that connection, whatever reached
+    socketserver.handle_error, and /proc/self/fd against the baseline taken
+    after a warm-up (gc.collect() first)."""
+    import socket as so
+    import ssl
+    import struct
+    import threading
+    import time
+    import traceback
+    import pygopherd.server as pserver
+
+    spec = dict(job)
+    cfg = dict(spec.get("config") or {})
+    pg = dict(cfg.get("pygopherd", {}))
+    pg.update({"servername": "gopher.example", "advertisedport": "70", "timeout": str(job.get("timeout", 1))})
+    cfg["pygopherd"] = pg
+    spec["config"] = cfg
+    w = drv.World(spec)
+    crt = os.path.join(drv.REPO, "testdata", "demo.crt")
+    key = os.path.join(drv.REPO, "testdata", "demo.key")
+    ctx = ssl.create_default_context(ssl.Purpose.CLIENT_AUTH)
+    ctx.load_cert_chain(crt, key)
+    cctx = ssl.SSLContext(ssl.PROTOCOL_TLS_CLIENT)
+    cctx.check_hostname = False
+    cctx.verify_mode = ssl.CERT_NONE
+    srv = pserver.ThreadingTCPServer(w.config, ("127.0.0.1", 0), pserver.GopherRequestHandler, context=ctx)
+    escaped = []
+    srv.handle_error = lambda request, client_address: escaped.append(traceback.format_exc()[-600:])
+    th = threading.Thread(target=srv.serve_forever, kwargs={"poll_interval": 0.02}, daemon=True)
+    th.start()
+    # every accepted connection ends in shutdown_request (finally-clause of process_request_thread)
+    done = [0]
+    made = [0]
+    orig_shutdown_request = srv.shutdown_request
+
+    def counted_shutdown(request):
+        try:
+            return orig_shutdown_request(request)
+        finally:
+            done[0] += 1
+    srv.shutdown_request = counted_shutdown
+
+    def idle(limit=15.0):
+        t0 = time.time()
+        while done[0] < made[0] and time.time() - t0 < limit:
+            time.sleep(0.005)
+        return done[0] >= made[0]
+
+    def client(r, complete):
+        s = so.create_connection(srv.server_address[:2], timeout=10)
+        made[0] += 1
+        got = 0
+        err = None
+        try:
+            if r.get("tls"):
+                s = cctx.wrap_socket(s)
+            s.sendall(drv.s2b(r["data"]))
+            how = "complete" if complete else r["how"]
+            want = None if how == "complete" else r.get("read_before", 0)
+            while want is None or got < want:
+                d = s.recv(min(1 << 16, (want - got) if want else 1 << 16))
+                if not d:
+                    break
+                got += len(d)
+            if how == "stall":
+                # stop reading until the server's send timeout (SO_SNDTIMEO) has fired
+                t0 = time.time()
+                while time.time() - t0 < 4 * float(job.get("timeout", 1)) + 4 and \
+                        not any(" EXCEPTION " in line for line in list(drv._logsink)):
+                    time.sleep(0.05)
+            if how in ("reset", "stall"):
+                s.setsockopt(so.SOL_SOCKET, so.SO_LINGER, struct.pack("ii", 1, 0))
+        except Exception as e:  # noqa
+            err = type(e).__name__ + ": " + str(e)
+        finally:
+            try:
+                s.close()
+            except Exception:
+                pass
+        return got, err
+
+    out = {"port": srv.server_address[1], "clients": []}
+    try:
+        # warm-up: every request once to the end (imports, mime tables, directory caches, TLS session setup)
+        seen = set()
+        for r in job["clients"]:
+            if r["data"] not in seen:
+                seen.add(r["data"])
+                client(r, True)
+        idle()
+        gc.collect()
+        fd0 = fd_snapshot()
+        for r in job["clients"]:
+            del drv._logsink[:]
+            del escaped[:]
+            got, err = client(r, False)
+            settled = idle()
+            nogc = fd_new(fd0, fd_snapshot())
+            gc.collect()
+            left = fd_new(fd0, fd_snapshot())
+            recs = []
+            for line in list(drv._logsink):
+                m = LOGRE.match(line)
+                if m:
+                    recs.append([m.group(4), m.group(1), m.group(2)])
+            out["clients"].append({"name": r["name"], "received": got, "client_error": err, "settled": settled,
+                                   "records": recs, "escaped": list(escaped), "fd_nogc": nogc, "fd_left": left,
+                                   "log": list(drv._logsink)[-4:]})
+    finally:
+        srv.shutdown()
+        srv.server_close()
+        th.join(timeout=5)
+        w.close()
+    return out
+
+
 def register(OPS, drv):
     OPS["c20_sweep"] = lambda job: op_c20_sweep(job, drv)
+    OPS["c20_live"] = lambda job: op_c20_live(job, drv)
